@@ -42,12 +42,15 @@ Literals ==
   /\ lit = "start" /\ deriv = <<>>
   /\ lit' = "done"
   /\ UNCHANGED <<deriv, pending>>
-  /\ \A v \in StrValues(Pairs) : PrintT(ToJson([fam |-> "str", lit |-> SpellStr(v), val |-> v, rt |-> v]))
+  /\ \A j \in 1..NX : Assert(MenuEntryOK(XMenu[j]), <<"expression menu entry is not what the strict parser reads", j>>)
+  /\ \A v \in StrValues(Pairs) :
+        Assert(ReadStr(Body(SpellStr(v))) = [ok |-> TRUE, v |-> v], <<"ReadStr(SpellStr(v)) # v", v>>) /\
+        PrintT(ToJson([fam |-> "str", lit |-> SpellStr(v), val |-> v, rt |-> v]))
   /\ \A s \in EscSources : LET r == ReadStr(s) IN
         Assert(r.ok, <<"escape menu entry outside POSIX", s>>) /\
         PrintT(ToJson([fam |-> "str", lit |-> <<DQ>> \o s \o <<DQ>>, val |-> r.v, rt |-> r.v]))
   /\ \A s \in ReSources(ReLen) : LET r == ReadRe(s) IN
-        Assert(r.ok, <<"regex menu entry unreadable", s>>) /\
+        Assert(r.ok /\ ReadRe(Body(SpellRe(r.v))) = r, <<"regex menu entry unreadable, or ReadRe(SpellRe(v)) # v", s>>) /\
         PrintT(ToJson([fam |-> "re", lit |-> <<SLASH>> \o s \o <<SLASH>>, val |-> r.v, rt |-> r.v]))
   /\ \A j \in 1..Len(NumSpellings) : PrintT(ToJson([fam |-> "num", lit |-> NumSpellings[j]]))
   /\ \A j \in 1..Len(Shapes) : PrintT(ToJson([fam |-> "shape", toks |-> Shapes[j].toks, sx |-> Shapes[j].sx, rt |-> Shapes[j].sx]))
